@@ -63,20 +63,19 @@ func (core *JApiCore) collectPathVariables(d *directive.Directive) *jerr.JApiErr
 		return d.KeywordError("parent directive not found")
 	}
 
-	parentDirective := *d.Parent
-
+	// Copies of a macro's directives made by PASTE keep the coordinates of the macro's text: the context is
+	// recognised by its identity.
 	if len(core.rawPathVariables) != 0 {
-		prevParent := core.rawPathVariables[len(core.rawPathVariables)-1].parentDirective
-		if prevParent.Equal(parentDirective) {
+		if core.rawPathVariables[len(core.rawPathVariables)-1].parent == d.Parent {
 			return d.KeywordError(jerr.NotUniqueDirective)
 		}
 	}
 
 	core.rawPathVariables = append(core.rawPathVariables, rawPathVariable{
-		pathDirective:   *d,
-		parentDirective: parentDirective,
-		schema:          s,
-		parameters:      pp,
+		pathDirective: *d,
+		parent:        d.Parent,
+		schema:        s,
+		parameters:    pp,
 	})
 
 	return nil
